@@ -1081,8 +1081,9 @@ impl MDBShardInfo {
                 file_lookup.push((truncate_hash(&file_metadata.file_hash), index));
                 index += (1 + num_entries + n_extended_bytes / MDB_FILE_INFO_ENTRY_SIZE) as u32;
             } else {
-                // Discard values until the next reader break.
-                copy(&mut reader.take(n_extended_bytes as u64), &mut std::io::sink())?;
+                // Discard this file's entries and extended data, up to the next file header.
+                let n_skip_bytes = num_entries * size_of::<FileDataSequenceEntry>() + n_extended_bytes;
+                copy(&mut reader.take(n_skip_bytes as u64), &mut std::io::sink())?;
             }
         }
 
